@@ -13,10 +13,12 @@ for p in sorted(root.glob("*.py")):
     for st in tree.body:
         if isinstance(st, ast.FunctionDef):
             out.append(f"{m}.{st.name}")
+            out += [f"{m}.{st.name}.<locals>.{y.name}" for y in st.body if isinstance(y, ast.FunctionDef)]
         elif isinstance(st, ast.ClassDef):
             for x in st.body:
                 if isinstance(x, ast.FunctionDef):
                     out.append(f"{m}.{st.name}.{x.name}")
+                    out += [f"{m}.{st.name}.{x.name}.<locals>.{y.name}" for y in x.body if isinstance(y, ast.FunctionDef)]
 dst = Path(__file__).resolve().parents[1] / "hvsa" / "baseline_functions.txt"
 dst.write_text("# functions of the pinned hvsrpy tree (names only); see hvsa/normalize.py\n" + "\n".join(sorted(set(out))) + "\n")
 print(len(out), "functions ->", dst)
